@@ -7,9 +7,11 @@ lean/YProofs/Props/C07.lean):
        the tables are cross-checked here against `Tensor.to_numpy` of the live operators;
  (ii)  eager oracles on the real code against an INDEPENDENT NumPy Jordan-Wigner reference (explicit strings
        Z^{|A|} on the sites that precede in the fermionic order, operators applied in the USER's order):
-       `generate_mpo` (+ the LaTeX `Generator`), `measure_1site`, `measure_2site` (every pattern string, i<j, i=j,
-       i>j, dict operators), `measure_nsite`, `rdm`, `sample(..., return_probabilities=True)`; bosonic families:
-       all strings absent (plain Kronecker products);
+       `generate_mpo` (+ the LaTeX `Generator`, fresh and with a history of calls on one instance: defaults at
+       construction, per-call overrides), `measure_1site` (all sites, one site, dict, user-ordered `sites`),
+       `measure_2site` (every pattern string, i<j, i=j, i>j, dict operators, explicit bond lists in any order),
+       `measure_nsite` (incl. re-orderings of the operator sequence), `rdm`, `sample(..., return_probabilities=True)`;
+       bosonic families: all strings absent (plain Kronecker products);
  (iii) correspondence of the Lean model (user-order product AND generate_mpo's sign/string rule, `parse2siteBonds`)
        with the reference and with the real code.
 
@@ -43,6 +45,10 @@ KEY_CPLX = "c07:generate_mpo-complex-operator-real-amplitudes"
 # canonize_/truncate_(normalize=False)), whereas to_tensor(), vdot and measure_* include it.  Same gating as KEY_CPLX: own
 # stratum (psi.factor != 1), counted and described in the evidence notes, an alarm only once the key is registered.
 KEY_RDM_FACTOR = "c07:rdm-ignores-psi-factor"
+# candidate defect found while widening the LaTeX Generator to call histories: Generator.mpo_from_latex(H_str) with `parameters`
+# left at its documented default None raises TypeError ({**self.parameters, **None}, _generator_class.py:132) even when every
+# expression of H_str has a default given to Generator(..., parameters=...).  Same gating as KEY_CPLX: own stratum ("noarg").
+KEY_LATEX_NOARG = "c07:generator-latex-parameters-none"
 
 MODULI = {"dense": [], "Z2": [2], "Z3": [3], "U1": [0], "U1xU1": [0, 0], "U1xU1xZ2": [0, 0, 2]}
 FAMILY_SPECS = [("Spin12", ["dense", "Z2", "U1"]), ("Spin1", ["dense", "Z3", "U1"]),
@@ -652,6 +658,26 @@ def check_parse_bonds(ctx):
 # measurements
 # ----------------------------------------------------------------------------------------------------
 
+def user_sites(rng, N):
+    """a collection of valid sites as a user may write it: (collection, form tag)"""
+    k = rng.random()
+    if k < 0.25:
+        return range(N - 1, -1, -1), "reversed-range"
+    if k < 0.5:
+        lst, tag = rng.sample(range(N), rng.randint(2, N)), "shuffled"
+    elif k < 0.8:
+        lst, tag = [rng.randrange(N) for _ in range(rng.randint(1, 2 * N))], "repeats"
+    else:
+        lst, tag = sorted(rng.sample(range(N), rng.randint(1, N)), reverse=True), "descending"
+    return (tuple(lst) if rng.random() < 0.3 else lst), tag
+
+
+def interleaved_repeat(sites):
+    """is some site repeated with another site in between (x .. y .. x)?"""
+    return any(sites[a] == sites[b] and any(sites[m] != sites[a] for m in range(a + 1, b))
+               for a in range(len(sites)) for b in range(a + 2, len(sites)))
+
+
 def neutral_names(fam):
     return [nm for nm in fam.names if fam.table[nm][2] == fam.zero() and nm != "I"] or ["I"]
 
@@ -730,6 +756,23 @@ def check_measure_case(ctx, case):
             g2 = mps.measure_1site(bra, {i: T[O] for i in sub}, ket)
             if sorted(g2) != sub or any(not close(g2[i], ref[i], scale) for i in sub):
                 bad("c07:measure_1site", f"measure_1site(dict on {sub}) = {dict(g2)} expected {ref}")
+            # `sites` / the operator dict as the USER writes them: any order (descending, shuffled), repeated entries, given as
+            # list / tuple / range; the value reported for a site may not depend on which sites were asked for before it
+            for _u in range(int(case.get("user_orders", 0))):
+                coll, form = user_sites(rng, N)
+                want = sorted(set(coll))
+                ctx.count(f"measure:1site:sites-form={form}")
+                if rng.random() < 0.5:
+                    g3 = mps.measure_1site(bra, T[O], ket, sites=coll)
+                    how = f"sites={coll!r}"
+                else:
+                    keys = rng.sample(range(N), rng.randint(1, N))          # dict in arbitrary insertion order
+                    want = sorted(set(coll) & set(keys))
+                    g3 = mps.measure_1site(bra, {i: T[O] for i in keys}, ket, sites=coll)
+                    how = f"dict with keys {keys}, sites={coll!r}"
+                if sorted(g3) != want or any(not close(g3[i], ref[i], scale) for i in want):
+                    bad("c07:measure_1site:user-order", f"measure_1site({how}) = {dict(g3)} expected "
+                        f"{ {i: ref[i] for i in want} }")
         elif which == "2site":
             O, P = names
             ref = {}
@@ -762,14 +805,46 @@ def check_measure_case(ctx, case):
             exp_pairs = sorted((i, j) for i in so for j in spp)
             if sorted(g) != exp_pairs or any(not close(g[b], ref[b], scale) for b in exp_pairs):
                 bad("c07:measure_2site:dict", f"measure_2site with dict operators on {so} x {spp}: got {dict(g)}")
+            # explicit list of bonds as the USER writes it: any order, repeated bonds, all three relations mixed; operators as
+            # tensors or as dicts in arbitrary insertion order
+            for _u in range(int(case.get("user_orders", 0))):
+                bl = [(rng.randrange(N), rng.randrange(N)) for _ in range(rng.randint(1, N * N))]
+                if rng.random() < 0.3:
+                    bl = bl + [b[::-1] for b in bl[: rng.randint(1, len(bl))]]
+                rng.shuffle(bl)
+                blarg = list(bl) if rng.random() < 0.7 else tuple(bl)
+                if rng.random() < 0.5:
+                    Oa, Pa, so, spp = T[O], T[P], range(N), range(N)
+                else:
+                    so = rng.sample(range(N), rng.randint(1, N))
+                    spp = rng.sample(range(N), rng.randint(1, N))
+                    Oa, Pa = {i: T[O] for i in so}, {i: T[P] for i in spp}
+                g = mps.measure_2site(bra, Oa, Pa, ket, bonds=blarg)
+                exp_pairs = sorted({b for b in bl if b[0] in so and b[1] in spp})
+                ctx.count("measure:2site:bond-list-evals")
+                if sorted(g) != exp_pairs or any(not close(g[b], ref[b], scale) for b in exp_pairs):
+                    bad("c07:measure_2site:bond-list", f"measure_2site(bonds={bl}, O on {list(so)}, P on {list(spp)}) = {dict(g)} "
+                        f"expected { {b: ref[b] for b in exp_pairs} }")
         elif which == "nsite":
             sites = case["sites"]
-            ref = expect(fam, N, vb, vk, sites, names)
-            ctx.count("measure:nsite:ref-nonzero" if abs(ref) > 1e-9 else "measure:nsite:ref-zero")
-            ops_ = [fam.table[nm][0] for nm in names]
-            got = mps.measure_nsite(bra, *ops_, ket=ket, sites=sites)
-            if not close(got, ref, scale):
-                bad("c07:measure_nsite", f"measure_nsite(sites={sites}) = {got} expected {ref}")
+            # the sequence as given, then random re-orderings of the same (operator, site) pairs: same total charge, hence the
+            # same bra/ket; every ordering is its own product (signs, on-site products) in the reference
+            seqs = [(list(sites), list(names))]
+            for _p in range(int(case.get("perms", 0))):
+                perm = list(range(len(sites)))
+                rng.shuffle(perm)
+                sq = ([sites[p] for p in perm], [names[p] for p in perm])
+                if sq not in seqs:
+                    seqs.append(sq)
+            for ss, nn in seqs:
+                ref = expect(fam, N, vb, vk, ss, nn)
+                ctx.count("measure:nsite:ref-nonzero" if abs(ref) > 1e-9 else "measure:nsite:ref-zero")
+                if interleaved_repeat(ss):
+                    ctx.count("measure:nsite:interleaved-repeated-site")
+                ops_ = [fam.table[nm][0] for nm in nn]
+                got = mps.measure_nsite(bra, *ops_, ket=ket, sites=ss if rng.random() < 0.5 else tuple(ss))
+                if not close(got, ref, scale):
+                    bad("c07:measure_nsite", f"measure_nsite(operators {nn}, sites={ss}) = {got} expected {ref}")
     except Exception as e:  # noqa: BLE001
         bad(f"c07:measure_{which}:raised", f"measure_{which} raised {type(e).__name__}: {str(e)[:150]}")
     ctx.count(f"measure:{which}:{'ok' if ok else 'FAIL'}")
@@ -1004,59 +1079,141 @@ def latex_name(nm):
     return nm.replace(":", "")
 
 
+def latex_layout(terms, style, both):
+    """LaTeX string of the term list and, per term k, how its amplitude a enters the parameters:
+    ("A", bonds): matrix A{k} with A{k}[i, j] = a on the bonds B{k} (\\sum over a list of bonds);
+    ("w", minus): number w{k} = -a if the term is written "- w{k} ..." (exercises the 'minus' rewriting) else a.
+    The written form is fixed by the DEFAULT amplitudes, so that one string serves a whole history of calls."""
+    pieces, forms = [], []
+    for k, (amp, pos, names) in enumerate(terms):
+        a = amp_value(amp)
+        if style == "sum" and len(pos) == 2 and pos[0] != pos[1]:
+            bonds = [(pos[0], pos[1])] + ([(pos[1], pos[0])] if both else [])
+            forms.append(("A", bonds))
+            pieces.append(("+ " if k > 0 else "") + rf"\sum_{{j,k \in B{k}}} A{k}_{{j,k}} {latex_name(names[0])}_{{j}} {latex_name(names[1])}_{{k}}")
+        else:
+            word = " ".join(f"{latex_name(nm)}_{{{p}}}" for p, nm in zip(pos, names))
+            minus = k > 0 and not isinstance(a, complex) and a < 0
+            forms.append(("w", minus))
+            pieces.append(f"- w{k} {word}" if minus else f"+ w{k} {word}" if k > 0 else f"w{k} {word}")
+    return " ".join(pieces), forms
+
+
+def latex_amp_param(form, N, a):
+    """(key prefix, value) of the parameter carrying amplitude a of a term written in `form`"""
+    if form[0] == "A":
+        A = np.zeros((N, N), dtype=complex if isinstance(a, complex) else float)
+        for (i, j) in form[1]:
+            A[i, j] = a
+        return A
+    return -a if form[1] else a
+
+
+def latex_history(rng, case):
+    """a history of use of ONE Generator: which parameters are defaults given at construction, and 2-4 calls each overriding
+    a random subset of the amplitudes for that call only (empty subsets included: a call relying on the defaults)"""
+    _, forms = latex_layout(case["terms"], case["style"], case["both"])
+    keys = ["sites"] + [f"B{k}" for k, f in enumerate(forms) if f[0] == "A"] + [f"A{k}" if f[0] == "A" else f"w{k}" for k, f in enumerate(forms)]
+    noarg = rng.random() < 0.25
+    p_ctor = rng.choice([0.4, 0.7, 1.0])
+    ctor = list(keys) if noarg else [key for key in keys if rng.random() < p_ctor]
+    calls = []
+    for _ in range(rng.choice([2, 3, 3, 4])):
+        p_over = rng.choice([0.0, 0.3, 0.6])
+        calls.append({str(k): rand_amp(rng) for k in range(len(forms)) if rng.random() < p_over})
+    at = None
+    if noarg:      # one extra call relying on the defaults only, made as mpo_from_latex(H_str): stratum of KEY_LATEX_NOARG
+        at = rng.randrange(1, len(calls) + 1)
+        calls.insert(at, {})
+    return {"ctor": ctor, "calls": calls, "noarg": at}
+
+
 def check_latex_case(ctx, case):
+    """case: {kind:'latex', fam, N, terms, style, both, [ctor=[parameter keys given as defaults to Generator(...)],
+    calls=[{term index: amplitude overriding the default in that call only}, ...], noarg=index of the call made without the
+    `parameters` argument | None]}.
+    One Generator instance serves the whole history of calls; the amplitudes specified for a call are the defaults given at
+    construction, overridden by the `parameters` of THAT call (keys absent from the defaults are passed in every call)."""
     import yastn.tn.mps as mps
     fam = fam_by_key(case["fam"])
     N, terms, style = case["N"], case["terms"], case["style"]
     avail = set(fam.ops.to_dict().keys())
     if any(latex_name(nm) not in avail for t in terms for nm in t[2]):
         return True
-    params = {"sites": [str(i) for i in range(N)]}
-    cplx_needed = complex_defect_stratum(fam, terms)   # keep KEY_CPLX out of this stratum: one complex parameter
-    pieces = []
-    ref_terms = []
-    for k, (amp, pos, names) in enumerate(terms):
-        a = amp_value(amp)
-        if cplx_needed and k == 0:
-            a = complex(a)
-        if style == "sum" and len(pos) == 2 and pos[0] != pos[1]:
-            # \sum over a list of bonds carrying an amplitude matrix
-            bonds = [(pos[0], pos[1])] + ([(pos[1], pos[0])] if case.get("both") else [])
-            A = np.zeros((N, N), dtype=complex if isinstance(a, complex) else float)
-            for (i, j) in bonds:
-                A[i, j] = a
-                ref_terms.append(((complex(a).real, complex(a).imag), [i, j], names))
-            params[f"A{k}"] = A
-            params[f"B{k}"] = [(str(i), str(j)) for i, j in bonds]
-            pieces.append(("+ " if k > 0 else "") + rf"\sum_{{j,k \in B{k}}} A{k}_{{j,k}} {latex_name(names[0])}_{{j}} {latex_name(names[1])}_{{k}}")
-        else:
-            word = " ".join(f"{latex_name(nm)}_{{{p}}}" for p, nm in zip(pos, names))
-            if k > 0 and not isinstance(a, complex) and a < 0:
-                params[f"w{k}"] = -a                    # written as "- w op op": exercises the 'minus' rewriting
-                pieces.append(f"- w{k} {word}")
-            else:
-                params[f"w{k}"] = a
-                pieces.append(f"+ w{k} {word}" if k > 0 else f"w{k} {word}")
-            ref_terms.append(((complex(a).real, complex(a).imag), pos, names))
-    H_str = " ".join(pieces)
-    ref = dense_terms(fam, N, list(range(N)), ref_terms)
-    scale = max(1.0, sum(abs(complex(*t[0])) * float(np.prod([max(1.0, np.abs(fam.table[n_][1]).sum(axis=1).max()) for n_ in t[2]]))
-                         for t in ref_terms))
+    calls = case.get("calls") or [{}]
+    ctor_keys = set(case.get("ctor") or [])
+    H_str, forms = latex_layout(terms, style, case.get("both"))
+    # keep KEY_CPLX out of this stratum: with >= 2 terms and a complex-valued operator the first amplitude is a Python complex
+    force_c0 = len(terms) >= 2 and has_complex_op(fam, terms)
+
+    def amp_of(k, override):
+        a = amp_value(override[str(k)]) if str(k) in override else amp_value(terms[k][0])
+        return complex(a) if (force_c0 and k == 0) else a
+
+    # structural parameters (never overridden) and default amplitudes
+    struct = {"sites": [str(i) for i in range(N)]}
+    for k, f in enumerate(forms):
+        if f[0] == "A":
+            struct[f"B{k}"] = [(str(i), str(j)) for i, j in f[1]]
+    akey = {k: (f"A{k}" if f[0] == "A" else f"w{k}") for k, f in enumerate(forms)}
+    defaults = dict(struct)
+    for k, f in enumerate(forms):
+        defaults[akey[k]] = latex_amp_param(f, N, amp_of(k, {}))
+    ctor = {key: val for key, val in defaults.items() if key in ctor_keys}
+    history = len(calls) > 1 or bool(ctor)
     try:
-        gen = mps.Generator(N, fam.ops, map={str(i): i for i in range(N)})
-        H = gen.mpo_from_latex(H_str, parameters=params)
-        got = mpo_dense(fam, H, N)
+        gen = mps.Generator(N, fam.ops, map={str(i): i for i in range(N)}, parameters=dict(ctor) if ctor else None)
     except Exception as e:  # noqa: BLE001
-        ctx.fail("oracle", "c07:generator-latex:raised", f"Generator.mpo_from_latex raised {type(e).__name__}: {str(e)[:150]} "
-                 f"for {H_str!r} ({fam.key}, N={N})", case=dict(case), concrete=True)
+        ctx.fail("oracle", "c07:generator-latex:raised", f"Generator(...) raised {type(e).__name__}: {str(e)[:150]} ({fam.key}, N={N})",
+                 case=dict(case), concrete=True)
         return False
-    err = float(np.abs(got - ref).max())
-    if not np.all(np.isfinite(got)) or err > 1e-9 * scale:
-        ctx.fail("oracle", "c07:generator-latex", f"Generator.mpo_from_latex({H_str!r}) differs from the Jordan-Wigner sum by {err:.3g} "
-                 f"({fam.key}, N={N})", case=dict(case), concrete=True)
-        ctx.count("latex:FAIL")
-        return False
-    ctx.count("latex:ok")
+    for c, override in enumerate(calls):
+        eff = [amp_of(k, override) for k in range(len(terms))]
+        params = {key: val for key, val in struct.items() if key not in ctor_keys}
+        for k, f in enumerate(forms):
+            if str(k) in override or akey[k] not in ctor_keys:
+                params[akey[k]] = latex_amp_param(f, N, eff[k])
+        ref_terms = []
+        for k, f in enumerate(forms):
+            am = (complex(eff[k]).real, complex(eff[k]).imag)
+            if f[0] == "A":
+                ref_terms += [(am, [i, j], terms[k][2]) for (i, j) in f[1]]
+            else:
+                ref_terms.append((am, terms[k][1], terms[k][2]))
+        ref = dense_terms(fam, N, list(range(N)), ref_terms)
+        scale = max(1.0, sum(abs(complex(*t[0])) * float(np.prod([max(1.0, np.abs(fam.table[n_][1]).sum(axis=1).max()) for n_ in t[2]]))
+                             for t in ref_terms))
+        noarg = case.get("noarg") == c and not params
+        where = f"call {c + 1}/{len(calls)} on one Generator, defaults {sorted(ctor)}, call parameters {sorted(params)}" if history else "fresh Generator"
+        try:
+            H = gen.mpo_from_latex(H_str) if noarg else gen.mpo_from_latex(H_str, parameters=params)
+            got = mpo_dense(fam, H, N)
+        except Exception as e:  # noqa: BLE001
+            if noarg:
+                # candidate defect KEY_LATEX_NOARG: own stratum (every key has a default, `parameters` left at its documented default None)
+                ctx.count(f"latex:noarg:raised:{type(e).__name__}")
+                what = (f"Generator.mpo_from_latex(H_str) with `parameters` left at its documented default None raises {type(e).__name__}: "
+                        f"{str(e)[:100]} although every expression of H_str has a default given to Generator(..., parameters=...) "
+                        f"({fam.key}, N={N}, {H_str!r})")
+                if not key_registered(KEY_LATEX_NOARG):
+                    if not any(n.startswith(f"candidate defect {KEY_LATEX_NOARG}") for n in ctx.notes):
+                        ctx.notes.append(f"candidate defect {KEY_LATEX_NOARG} (not registered, no alarm): {what}")
+                    continue
+                ctx.fail("oracle", KEY_LATEX_NOARG, what, case=dict(case), concrete=True)
+                return False
+            ctx.fail("oracle", "c07:generator-latex:raised", f"Generator.mpo_from_latex raised {type(e).__name__}: {str(e)[:150]} "
+                     f"for {H_str!r} ({fam.key}, N={N}, {where})", case=dict(case), concrete=True)
+            return False
+        if noarg:
+            ctx.count("latex:noarg:accepted")
+        err = float(np.abs(got - ref).max())
+        if not np.all(np.isfinite(got)) or err > 1e-9 * scale:
+            key = "c07:generator-latex:call-history" if (history and c > 0) else "c07:generator-latex"
+            ctx.fail("oracle", key, f"Generator.mpo_from_latex({H_str!r}) differs from the Jordan-Wigner sum with the amplitudes specified "
+                     f"for this call by {err:.3g} ({fam.key}, N={N}, {where})", case=dict(case), concrete=True)
+            ctx.count("latex:FAIL")
+            return False
+        ctx.count("latex:call-with-history:ok" if (history and c > 0) else "latex:ok")
     return True
 
 
@@ -1161,9 +1318,16 @@ def run(ctx):
     ctx.rule = ("per operator family x symmetry (17 configurations): random Hterm lists (1-6 terms of 1-4 operators drawn from the "
                 "whole table incl. charged operators and a non-zero common total charge, arbitrary order, repeated sites, "
                 "int/float/complex amplitudes, identity given as MPO/tensor/list, optional random permutation f_map, N=2..5 quick / "
-                "2..7 thorough subject to d^N <= 256/1100) -> generate_mpo dense vs NumPy JW sum; the same through the LaTeX Generator; "
+                "2..7 thorough subject to d^N <= 256/1100) -> generate_mpo dense vs NumPy JW sum; the same through the LaTeX Generator, "
+                "used on a fresh instance and as ONE instance with a call history (a random subset of the parameters given as "
+                "defaults at construction, 2-5 calls each overriding a random subset of the amplitudes for that call only, calls "
+                "relying on the defaults alone; every call compared with the sum for the amplitudes specified for THAT call); "
                 "integer-data MPS of random admissible total charges (bra charge = ket charge + operator charges) -> measure_1site, "
-                "measure_2site (30 pattern strings + single/list/dict forms), measure_nsite (repeated sites, any order), rdm (any site "
+                "measure_2site (30 pattern strings + single/dict forms + explicit bond lists in arbitrary order with repeated bonds, "
+                "operators as tensors or dicts in arbitrary insertion order), measure_1site also with `sites` as the user writes them "
+                "(reversed range, shuffled, descending, repeated entries; list/tuple/range; with tensor or dict operators), "
+                "measure_nsite (words of 1-5 operators with a tunable share of charged ones, repeated sites incl. a hub site "
+                "interleaved with other sites, any order, plus random re-orderings of the same operator/site pairs), rdm (any site "
                 "order, complex data), sample probabilities (vector / matrix / sector projectors given as list / dict / dict with arbitrary "
                 "integer keys / per-site dict; 1-9 samples; drawn configurations must have non-zero Born probability). Every state "
                 "entering a measurement is used as generated or RE-GAUGED through public methods (canonize_ to first / last / both "
@@ -1208,7 +1372,7 @@ def run(ctx):
                 if stratum in ("main", "fmap"):
                     lean_terms_check(ctx, case)
         # LaTeX generator (linear fermionic order only; amplitudes through parameters)
-        for _ in range(3 if quick else 10):
+        for _l in range(3 if quick else 10):
             N = pick_N(fam, rng, quick)
             terms = gen_term_list(fam, N, rng)
             if terms is None:
@@ -1218,6 +1382,10 @@ def run(ctx):
             if case["both"] and case["style"] == "sum":
                 # the reversed bond keeps the operator order, so the total charge is unchanged
                 pass
+            if _l > 0:
+                case.update(latex_history(rng, case))     # one Generator instance, defaults at construction, several calls
+                ctx.count(f"latex:history:calls={len(case['calls'])}")
+                ctx.count(f"latex:history:defaults={'all' if case['noarg'] is not None else 'some' if case['ctor'] else 'none'}")
             ctx.case(case)
             guarded(ctx, check_latex_case, case)
         malformed_stream(ctx, fam, rng)
@@ -1232,25 +1400,35 @@ def run(ctx):
             # 1-site
             nm = rng.choice(charged) if charged and rng.random() < 0.6 else rng.choice(pool)
             case = {"kind": "measure", "which": "1site", "fam": fam.key, "N": N, "names": [nm], "seed": rng.randrange(2 ** 40),
-                    "cplx": rng.random() < 0.3, "gauge": [rand_gauge(rng), rand_gauge(rng)]}
+                    "cplx": rng.random() < 0.3, "gauge": [rand_gauge(rng), rand_gauge(rng)], "user_orders": 3 if quick else 6}
             ctx.case(case)
             guarded(ctx, check_measure_case, case)
             # 2-site: every pattern
             for _2 in range(2 if quick else 3):
                 names = [rng.choice(charged) if charged and rng.random() < 0.7 else rng.choice(pool) for _ in range(2)]
                 case = {"kind": "measure", "which": "2site", "fam": fam.key, "N": N, "names": names, "seed": rng.randrange(2 ** 40),
-                        "patterns": list(PATTERNS), "cplx": rng.random() < 0.3, "gauge": [rand_gauge(rng), rand_gauge(rng)]}
+                        "patterns": list(PATTERNS), "cplx": rng.random() < 0.3, "gauge": [rand_gauge(rng), rand_gauge(rng)],
+                        "user_orders": 2 if quick else 4}
                 ctx.case(case)
                 guarded(ctx, check_measure_case, case)
             # n-site
             for _n in range(3 if quick else 8):
-                k = rng.choice([1, 2, 3, 3, 4])
-                names = [rng.choice(pool) for _ in range(k)]
-                sites = [rng.randrange(N) for _ in range(k)]
+                k = rng.choice([1, 2, 3, 3, 4, 4, 5])
+                pc = rng.choice([0.0, 0.5, 0.9])                    # share of charged operators in the word
+                names = [rng.choice(charged) if charged and rng.random() < pc else rng.choice(pool) for _ in range(k)]
+                style = rng.random()
+                if style < 0.4:
+                    sites = [rng.randrange(N) for _ in range(k)]
+                elif style < 0.75:                                   # one site visited several times, other sites in between
+                    hub = rng.randrange(N)
+                    sites = [hub if rng.random() < 0.55 else rng.randrange(N) for _ in range(k)]
+                else:
+                    sites = rng.sample(range(N), k) if k <= N else [rng.randrange(N) for _ in range(k)]
                 if onsite_zero(fam, sites, names):
                     ctx.count("measure:nsite:zero-onsite-product")
                 case = {"kind": "measure", "which": "nsite", "fam": fam.key, "N": N, "names": names, "sites": sites,
-                        "seed": rng.randrange(2 ** 40), "cplx": rng.random() < 0.3, "gauge": [rand_gauge(rng), rand_gauge(rng)]}
+                        "seed": rng.randrange(2 ** 40), "cplx": rng.random() < 0.3, "gauge": [rand_gauge(rng), rand_gauge(rng)],
+                        "perms": 5 if quick else 10}
                 ctx.case(case)
                 guarded(ctx, check_measure_case, case)
             # rdm
@@ -1288,7 +1466,12 @@ def search(ctx, broken, budget_s):
         N = min(pick_N(fam, rng, True), 4)
         pool = [nm for nm in fam.names if nm != "I"] or ["I"]
         case = {"kind": "measure", "which": "2site", "fam": fam.key, "N": N, "names": [rng.choice(pool), rng.choice(pool)],
-                "seed": rng.randrange(2 ** 40), "patterns": ["a"], "gauge": [rand_gauge(rng), rand_gauge(rng)]}
+                "seed": rng.randrange(2 ** 40), "patterns": ["a"], "gauge": [rand_gauge(rng), rand_gauge(rng)], "user_orders": 2}
+        check_measure_case(ctx, case)
+        k = rng.choice([2, 3, 4])
+        case = {"kind": "measure", "which": "nsite", "fam": fam.key, "N": N, "names": [rng.choice(pool) for _ in range(k)],
+                "sites": [rng.randrange(N) for _ in range(k)], "seed": rng.randrange(2 ** 40),
+                "gauge": [rand_gauge(rng), rand_gauge(rng)], "perms": 4}
         check_measure_case(ctx, case)
         case = {"kind": "sample", "fam": fam.key, "N": N, "mode": rng.choice(["vector", "matrix", "sector"]),
                 "seed": rng.randrange(2 ** 40), "cplx": rng.random() < 0.3, "gauge": rand_gauge(rng),
